@@ -3,7 +3,7 @@ against the Coq model of the dynamic term and of the total; linearity, permutati
 and the halves identity checked directly on the implementation."""
 import random
 from common import jx, cq, cnat, clist, write_cases, default_matches_known
-from lossbuild import KINDS, rand_base, make_loss, make_batch, residual_polys, cpoly, cweight, nvars, dy
+from lossbuild import KINDS, rand_base, make_loss, make_batch, residual_polys, cpoly, cweight, nvars, dy, rand_dk
 from poly import prand
 matches_known = default_matches_known
 
@@ -25,6 +25,10 @@ def with_parts(rng, cfg):
         if rng.random() < 0.6:       # observed rows of the parameter the equation reads: they belong to the observation term only
             cfg["obs"]["arows"] = [dy(rng, 2, 6) for _ in range(n)]
     cfg["dyn"] = rng.random() < 0.9
+    if rng.random() < 0.3:
+        cfg["dk"] = rand_dk(rng, kind)
+        if rng.random() < 0.5:
+            cfg["dk"]["dyn_loss"] = [False, False]       # nothing is differentiated through the dynamic term: its value is unchanged
     return cfg
 
 
@@ -134,7 +138,7 @@ def generate(tier, seed, casedir, variant):
             continue
         k = f"{cfg['kind']}_{'vecw' if isinstance(cfg['w_dyn'], list) else 'scalarw'}_{len(cfg['res'])}comp"
         dist[k] = dist.get(k, 0) + 1
-        for p in ("ic", "norm", "obs"):
+        for p in ("ic", "norm", "obs", "dk"):
             if cfg.get(p):
                 dist[p] = dist.get(p, 0) + 1
         if terms.get("dyn_loss", 0.0) != 0.0 and len(cfg["batch"]) > 1:
@@ -143,7 +147,7 @@ def generate(tier, seed, casedir, variant):
             samples.append(dict(jsonable(cfg), returned_terms=terms))
     write_cases(casedir, "C03", "R_C03", variant, cases, chunk=100)
     return dict(meta=meta, oracle_violations=viol, evaluations=len(cases), distinct_nontrivial=len(nontrivial), samples=samples, distribution=dist,
-                rule="random polynomial residual maps with 1..3 components on polynomial networks, batches of 1..9 dyadic points, scalar and per-component weights, each optional part (initial condition, normalisation, observations, dynamic part itself) switched on or off, for the ODE / stationary / non-stationary losses; non-trivial = non-zero dynamic term on more than one point; every third case also checks linearity, permutation invariance and the halves identity on the implementation",
+                rule="random polynomial residual maps with 1..3 components on polynomial networks, batches of 1..9 dyadic points, scalar and per-component weights, each optional part (initial condition, normalisation, observations, dynamic part itself) switched on or off, a third with non-default derivative keys (boolean trees, all-False ones included), for the ODE / stationary / non-stationary losses; non-trivial = non-zero dynamic term on more than one point; every third case also checks linearity, permutation invariance and the halves identity on the implementation",
                 oracle_checks=N // 3)
 
 
